@@ -78,12 +78,17 @@ class RecordingServer:
 
 
 _SERVER = None
+_SERVER_PID = None
 
 
 def server() -> RecordingServer:
-    global _SERVER
-    if _SERVER is None:
+    """One server per process (a server inherited through fork() has no thread here and shares its socket)."""
+    import os
+
+    global _SERVER, _SERVER_PID
+    if _SERVER is None or _SERVER_PID != os.getpid():
         _SERVER = RecordingServer()
+        _SERVER_PID = os.getpid()
     return _SERVER
 
 
